@@ -4,6 +4,7 @@ Implementation: aiohttp.http_parser (request and response parser, payload parser
 400 path.  Model: lean/AioModel/Http.lean; theorems lean/AioProps/C10.lean.
 """
 import os
+import asyncio
 from .common import httpparse as H
 from .common.httpgen import generate as _gen
 from .common.codec import hx, unhx
@@ -316,6 +317,7 @@ def _check(ctx):
     if excs:
         ctx.violation("C05/loop-exception-handler-called", {"n": len(excs), "first": repr(excs[0])[:300]}, f"{len(excs)} exceptions reached the event loop")
     check_work(ctx)
+    check_client_side(ctx)
     # the malformed request arrives behind valid keep-alive requests: in the same read (their handlers have not run yet)
     # or in a later read while a slow handler is still running — the 4xx must still be sent, after their responses
     oks = [b"GET /ok HTTP/1.1\r\nHost: h\r\n\r\n", b"POST /ok HTTP/1.1\r\nHost: h\r\nContent-Length: 3\r\n\r\nabc",
@@ -339,6 +341,101 @@ def _check(ctx):
         judge_behind(ctx, case, o, out, closed, escaped)
     if excs:
         ctx.violation("C05/loop-exception-handler-called", {"n": len(excs), "first": repr(excs[0])[:300]}, f"{len(excs)} exceptions reached the event loop (errors behind handlers)")
+
+
+# ------------------------------------------------------------------ client side: "... and the client into a client error"
+def client_run(cases):
+    """each case (stream, cuts, auto_decompress, read_until_eof): the real ResponseHandler over an in-memory transport;
+    the caller awaits the head and then reads the body → [(outcome, escaped, lost)]
+    outcome = ("ok", status, n) | ("exc", phase, class name, is_client_error)"""
+    import aiohttp
+    from aiohttp.client_proto import ResponseHandler
+    from aiohttp.http_exceptions import HttpProcessingError
+    from .common.vloop import run
+    from .common.memtransport import MemTransport
+    res = []
+
+    async def main():
+        loop = asyncio.get_running_loop()
+        for data, cuts, autod, rue in cases:
+            proto = ResponseHandler(loop)
+            tr = MemTransport(loop, proto)
+            proto.connection_made(tr)
+            proto.set_response_params(read_until_eof=rue, auto_decompress=autod, read_bufsize=2 ** 16)
+            escaped, pos = None, 0
+
+            async def caller():
+                try:
+                    msg, payload = await proto.read()
+                except BaseException as e:  # noqa
+                    return ("exc", "head", type(e).__name__, isinstance(e, (aiohttp.ClientError, HttpProcessingError)))
+                try:
+                    body = await payload.read()
+                except BaseException as e:  # noqa
+                    return ("exc", "body", type(e).__name__, isinstance(e, (aiohttp.ClientError, HttpProcessingError)))
+                return ("ok", msg.code, len(body))
+            task = loop.create_task(caller())
+            for n in cuts:
+                if tr.closing:
+                    break
+                try:
+                    H._watch(True)
+                    try:
+                        proto.data_received(data[pos:pos + n])
+                    finally:
+                        H._watch(False)
+                except BaseException as e:  # noqa
+                    if type(e).__name__ == "_Runaway":
+                        raise
+                    escaped = type(e).__name__; break
+                pos += n
+                await asyncio.sleep(0)
+            if not tr.closing:
+                tr.peer_close()            # the peer ends the connection: whoever still waits gets a client error
+            await asyncio.sleep(1)
+            if not task.done():
+                task.cancel()
+                res.append((("pending",), escaped, tr.closed)); await asyncio.sleep(0)
+            else:
+                res.append((task.result(), escaped, tr.closed))
+    excs = []
+    run(main, excs=excs)
+    return res, excs
+
+
+def check_client_side(ctx):
+    rng = ctx.rng
+    cases = []
+    for _ in range(500 if ctx.quick else 8000):
+        lax = True
+        data = H.gen_response(rng, lax)
+        kind = "valid"
+        if rng.random() < 0.85:
+            data, kind = H.mutate(rng, data)
+        if rng.random() < 0.15:
+            m = rng.choice([16, 200, 3000])
+            data = bytes(rng.choice(rng.choice([bytes(range(256)), b"\r\n ", b"HTP/1.0 2\r\n:;,a"])) for _ in range(rng.randint(1, m))); kind = "raw"
+        cuts = [len(data)] if rng.random() < 0.5 or len(data) < 3 else [len(x) for x in H.cuts_random(rng, data, rng.randint(1, 4))]
+        cases.append((data, cuts, rng.random() < 0.6, rng.random() < 0.4))
+        ctx.hit("client:" + kind)
+    res, excs = client_run(cases)
+    for (data, cuts, autod, rue), (out, escaped, lost) in zip(cases, res):
+        case = {"cfg": H.Cfg(response=True, lax=True).spec(), "stream": hx(data), "cuts": cuts, "client": [autod, rue]}
+        ctx.case(("client", data, tuple(cuts), autod, rue), nontrivial=True)
+        judge_client(ctx, case, out, escaped)
+    if excs:
+        ctx.violation("C10/client/loop-exception-handler-called", {"n": len(excs), "first": repr(excs[0])[:300]}, f"{len(excs)} exceptions reached the event loop (client side)")
+    H.hang_report(ctx)
+
+
+def judge_client(ctx, case, out, escaped):
+    if escaped:
+        ctx.violation(f"C10/client/exception-escaped-data_received/{escaped}", case, f"{escaped} left ResponseHandler.data_received")
+    elif out[0] == "pending":
+        ctx.violation("C10/client/caller-left-waiting-after-the-connection-ended", case, "the peer closed the connection but the caller of read() is still waiting")
+    elif out[0] == "exc" and not out[3]:
+        ctx.violation(f"C10/client/not-a-client-error/{out[1]}/{out[2]}", case, f"the caller got {out[2]} while reading the {out[1]} — not a ClientError / HttpProcessingError")
+    ctx.hit("client-outcome:" + (out[0] if out[0] != "exc" else f"exc:{out[2]}"))
 
 
 # ------------------------------------------------------------------ work: "never ... super-linear work"
@@ -452,6 +549,10 @@ def _replay(ctx, case):
     segs, pos = [], 0
     for n in case["cuts"]:
         segs.append(data[pos:pos + n]); pos += n
+    if case.get("client"):
+        res, excs = client_run([(data, case["cuts"], case["client"][0], case["client"][1])])
+        judge_client(ctx, case, res[0][0], res[0][1])
+        return
     if case.get("work"):
         t = cpu_of_feed(cfg, data)
         if t > WORK_BUDGET_S:
